@@ -356,6 +356,15 @@ func (c *Case) docPreview() string {
 	return s
 }
 
+// Pending saves the scenario about to be executed, for checks whose failure mode is the death
+// of the process (race detector with halt_on_error): the driver turns it into the replay file.
+func Pending(c *Case) {
+	if p := os.Getenv("VERIF_FAIL_OUT"); p != "" {
+		b, _ := json.MarshalIndent(c, "", " ")
+		_ = os.WriteFile(p+".pending", b, 0o644)
+	}
+}
+
 // replayers maps check names to the pure check functions (returns "" when the property holds).
 var replayers = map[string]func(c *Case, st *Stats) string{}
 
